@@ -105,7 +105,7 @@ CHECKS = {
   text='spec/KfacRef.tla (sequential K-FAC reference machine over symbolic terms) with the interval / schedule clauses as action properties, model-checked by TLC exhaustively to a depth for ~18 configuration families (interval pairs incl. non-multiples and callables, hook/no-hook, accumulation, callable and scheduler-driven hyper-parameters, reset / forward-only / checkpoint interleavings); every behaviour TLC enumerates (all maximal paths for small alphabets, -simulate for the 9-action alphabet) is replayed in lock step into the real KFACPreconditioner and steps, the six hyper-parameters, factors, refresh events and gradients are compared after every action (terms interpreted in float64 by solving the defining system).',
   ref='DESIGN.md 4.4, 5 (C05)',
   note='W=1 reference machine (distributed equivalence is C02). Real-valued data is sampled (one seeded model/data per run); tolerance 2e-4 relative scaled by conditioning. Usage assumption: step only when gradients exist.',
-  technique='TLA+ spec (KfacRef.tla) + TLC (action properties, exhaustive path enumeration / simulation) with lock-step replay of every generated behaviour'),
+  technique='TLA+ spec (KfacRef.tla) + TLC (action properties, exhaustive path enumeration / simulation) with lock-step replay of every generated behaviour; trace validation (KfacTrace.tla) of executions recorded from the repository\'s own training loop and random API drivers'),
  'C03': dict(
   category='model_checking',
   text='spec/Comm.tla (collective matching, membership, new_group agreement, no stall) is model-checked by TLC over the per-rank issue/wait programs extracted from real executions of KFACPreconditioner on a simulated torch.distributed (all interleavings for small programs, partial-order-reduced / linearised for long ones, reductions cross-checked); the same invariants are evaluated at run time on every execution under 4 scheduling policies, and TLC-simulated behaviours of Comm are replayed as explicit schedules into the real code.',
